@@ -3,6 +3,9 @@
 //! harness --worker ...                                      (internal)
 
 mod core;
+mod enc;
+mod gen;
+mod model;
 mod monitor;
 mod prng;
 mod props;
